@@ -125,3 +125,49 @@ Proof.
   split; [rewrite B2, M3, A2', N3, N1; reflexivity|]. split; [congruence|]. split; [congruence|].
   intros B HB. rewrite (B5 B) by lia. rewrite (M6 B) by lia. rewrite (A5 B) by lia. rewrite (N6 B HB). reflexivity.
 Qed.
+
+(* ------------------------------------------------------------------ Block::updateWeightedPosition *)
+Lemma stats_add_fold_geo s : wf_vars (svars s) -> forall V sc ab ad a2,
+  exists ab' ad' a2', fold_left (stats_add s) V (sc, ab, ad, a2) = (sc, ab', ad', a2') /\
+    a2' == a2 + sc * sc * usum (svars s) V /\
+    ad' - ab' == ad - ab + sc * tsum (svars s) (off_of s) V.
+Proof.
+  intros W. induction V as [|v t IH]; intros sc ab ad a2; cbn [fold_left].
+  - exists ab, ad, a2. split; [reflexivity|]. cbn [usum tsum]. split; ring.
+  - unfold stats_add at 2. cbv zeta.
+    destruct (IH sc (Qred (ab + wt (var_of s v) * (sc / scl (var_of s v)) * (off_of s v / scl (var_of s v))))
+                 (Qred (ad + wt (var_of s v) * (sc / scl (var_of s v)) * des (var_of s v)))
+                 (Qred (a2 + wt (var_of s v) * (sc / scl (var_of s v)) * (sc / scl (var_of s v))))) as [ab' [ad' [a2' [E1 [E2 E3]]]]].
+    exists ab', ad', a2'. split; [exact E1|].
+    destruct (vget_pos' (svars s) v W) as [_ Ps]. unfold var_of in *.
+    split; [rewrite E2, Qred_correct; cbn [usum]; field; lra|].
+    rewrite E3, !Qred_correct. cbn [tsum]. field. lra.
+Qed.
+
+(* the block is recomputed from its variable list: statistics and optimum are right whatever they were before *)
+Theorem uwp_blk_ok s b :
+  wf_vars (svars s) -> (b < length (blocks s))%nat -> bvars (block_of s b) <> [] -> 0 < bscale (block_of s b) ->
+  let s' := update_weighted_position s b in
+  blk_ok s' b /\ svars s' = svars s /\ scons s' = scons s /\ voff s' = voff s /\ vblk s' = vblk s /\ cact s' = cact s /\
+  length (blocks s') = length (blocks s) /\
+  bvars (block_of s' b) = bvars (block_of s b) /\ bscale (block_of s' b) = bscale (block_of s b) /\
+  (forall X, X <> b -> block_of s' X = block_of s X).
+Proof.
+  intros W Hb N Sc. cbv zeta. unfold update_weighted_position.
+  destruct (stats_add_fold_geo s W (bvars (block_of s b)) (bscale (block_of s b)) 0 0 0) as [ab [ad [a2 [E1 [E2 E3]]]]].
+  rewrite E1. set (K := block_of s b) in *.
+  assert (EB : block_of (set_block s b (mkblk (bvars K) (Qred ((ad - ab) / a2)) (bscale K) ab ad a2 (dead K))) b =
+               mkblk (bvars K) (Qred ((ad - ab) / a2)) (bscale K) ab ad a2 (dead K)).
+  { unfold block_of, set_block, set_blocks. cbn [blocks]. apply nth_upd_nth_eq. exact Hb. }
+  split.
+  { unfold blk_ok. cbv zeta. rewrite EB. cbn [bvars bscale A2 AD AB posn].
+    change (svars (set_block s b _)) with (svars s).
+    assert (EO : forall V, tsum (svars s) (off_of (set_block s b (mkblk (bvars K) (Qred ((ad - ab) / a2)) (bscale K) ab ad a2 (dead K)))) V
+                           == tsum (svars s) (off_of s) V).
+    { intros V. apply tsum_ext. intros v _. reflexivity. }
+    rewrite EO. split; [exact N|]. split; [exact Sc|]. split; [rewrite E2; ring|]. split; [rewrite E3; ring | apply Qred_correct]. }
+  split; [reflexivity|]. split; [reflexivity|]. split; [reflexivity|]. split; [reflexivity|]. split; [reflexivity|].
+  split; [unfold set_block, set_blocks; cbn [blocks]; apply upd_nth_length|].
+  split; [rewrite EB; reflexivity|]. split; [rewrite EB; reflexivity|].
+  intros X NX. unfold block_of, set_block, set_blocks. cbn [blocks]. apply nth_upd_nth_neq. congruence.
+Qed.
